@@ -17,7 +17,7 @@
 //!              rank u64(delta_next) u64(delta_best) missed_cleavages
 //!              opt([m (kind charge ordinal u32(intensity) u32(mz_calculated) u32(mz_experimental))…])
 //!
-//!   scoremany report_psms wide_window opt(tol isolation_window) <arguments of score1>  ->  as score1, but through a
+//!   scoremany report_psms mode(bit 0 = wide_window, bit 1 = chimera) opt(tol isolation_window) <arguments of score1>  ->  as score1, but through a
 //!          Scorer with the given report_psms / wide_window: only report_psms PSMs come back and trim_hits really
 //!          truncates (databases of 49..300 peptides that all match inside one precursor window)
 //!
@@ -52,7 +52,10 @@ pub const INFO: Info = Info {
            peaks; directed: searched-vs-annotated charge (override with ranges containing / not containing the annotation, un-annotated 1..4, wide precursor tolerance so every searched charge reports its own PSM), empty spectrum, a dense spectrum (peak every ~0.37 Da), the complete PEPTIDEK ladder \
            (the repaired index-0 finding), TIC = sum / arbitrary / 0. A separate stream tagged neg-intensity feeds \
            negative and NaN intensities (outside the property: compared with the model only). \
-           scoremany: the same through a Scorer with report_psms 1/5/40 on a database of 49..130 (quick) / 9..300 (thorough)            peptides that share a 4-residue prefix or suffix, all inside one wide precursor window (Da or ppm; annotated,            un-annotated 2..4, override 2..3 and wide_window variants; isotope ranges), the spectrum holding the shared            fragments, one full ladder and fragments of three other peptides: more than 50 / more than 2*report_psms            candidates with a match per sub-search, so trim_hits truncates and scored_candidates must still count all.            c04select: sorted peak lists of 0..14 peaks on a coarse mass grid (many ties in mass and intensity), \
+           scoremany: the same through a Scorer with report_psms 1/5/40 on a database of 49..130 (quick) / 9..300 (thorough)            peptides that share a 4-residue prefix or suffix, all inside one wide precursor window (Da or ppm; annotated,            un-annotated 2..4, override 2..3 and wide_window variants; isotope ranges), the spectrum holding the shared            fragments, one full ladder and fragments of three other peptides: more than 50 / more than 2*report_psms            candidates with a match per sub-search, so trim_hits truncates and scored_candidates must still count all.            scoremany with chimera (mode bit 1): spectra mixing the ladders of 2-3 of the 2-4 database peptides at distinct (or \
+           equal) intensity levels, shared peaks of isobaric permutations, exact duplicate peaks, noise, report_psms 1..4, \
+           TIC = sum or arbitrary: PSM i is checked against the spectrum left after removing the matched peaks of PSMs < i. \
+           c04select: sorted peak lists of 0..14 peaks on a coarse mass grid (many ties in mass and intensity), \
            window centres on / between grid points, ppm and Da tolerances incl. empty and inverted windows, optional \
            offset; exhaustive small scope in the thorough tier (all intensity assignments over {0,1,2} for <= 5 \
            peaks x all windows). non-trivial = scoremany: more than 50 peptides; score1: the spectrum contains at least one ladder peak placed \
@@ -805,6 +808,121 @@ fn many_case(rng: &mut Rng, n_pep: usize, rp: usize, variant: usize) -> (String,
     (o.finish(), tags)
 }
 
+/// chimeric spectra: the ladders of 2-3 database peptides mixed in one spectrum (distinct intensity levels so the
+/// rounds have a clear order, or equal levels for ties), optional shared peaks (isobaric permutation), noise;
+/// `chimera = true`, report_psms 2..4: PSM i must be scored on the spectrum left after removing the matched peaks of
+/// PSMs 1..i-1, with THAT spectrum's total ion current
+fn chimera_case(rng: &mut Rng, it: usize) -> (String, Vec<&'static str>) {
+    let mut tags: Vec<&'static str> = vec!["scoremany", "chimera"];
+    let npep = 2 + rng.below(3);
+    let mut peps: Vec<Pep> = (0..npep).map(|_| random_pep(rng)).collect();
+    if rng.chance(1, 4) {
+        let mut s2 = peps[0].seq.clone();
+        rng.shuffle(&mut s2);
+        peps[1] = Pep::plain(&s2);
+        tags.push("isobaric-pair");
+    }
+    peps.sort_by(|a, b| a.mono.total_cmp(&b.mono));
+    let nmix = 2 + rng.below(2).min(npep - 2);
+    let mut order: Vec<usize> = (0..npep).collect();
+    rng.shuffle(&mut order);
+    let kinds: Vec<usize> = rng.pick(&[&[1usize, 4][..], &[1, 4], &[4, 1], &[0, 1, 4], &[4]]).to_vec();
+    let ftol = *rng.pick(&[Tol::Ppm(-10.0, 10.0), Tol::Da(-0.02, 0.02), Tol::Da(-0.5, 0.5)]);
+    let equal_levels = rng.chance(1, 5);
+    let mut peaks: Vec<(f32, f32)> = vec![];
+    for (rank, &pi) in order.iter().take(nmix).enumerate() {
+        let level = if equal_levels { 10.0 } else { 100.0 / (1 + rank * 3) as f32 };
+        let pt = peps[pi].peptide();
+        let rate = *rng.pick(&[100u32, 80, 60]);
+        for &k in &kinds {
+            for ion in IonSeries::new(&pt, KINDS[k]) {
+                if rng.chance(rate, 100) {
+                    let c = if rng.chance(1, 6) { 2.0 } else { 1.0 };
+                    peaks.push((ion.monoisotopic_mass / c, level + rng.below(8) as f32 * 0.25));
+                }
+            }
+        }
+    }
+    for _ in 0..*rng.pick(&[0usize, 5, 20]) {
+        peaks.push(((rng.unit() * 1500.0) as f32 + 40.0, (rng.unit() * 5.0) as f32));
+    }
+    if rng.chance(1, 5) && !peaks.is_empty() {
+        // exact duplicates of a peak: `to_remove.contains` removes all of them
+        let d = peaks[rng.below(peaks.len())];
+        peaks.push(d);
+        tags.push("duplicate-peak");
+    }
+    peaks.sort_by(|a, b| a.0.total_cmp(&b.0));
+    let tic = if rng.chance(1, 8) { 1000.0 } else { peaks.iter().map(|p| p.1).sum::<f32>() };
+    let z = 2 + rng.below(2) as u8;
+    let tp = peps[order[0]].clone();
+    let rp = if it % 7 == 0 { 1 } else { 2 + rng.below(3) };
+    let annotated = !rng.chance(1, 5);
+    let iso = *rng.pick(&[(0i8, 0i8), (0, 0), (0, 0), (0, 1)]);
+    let req = Req {
+        kinds,
+        min_ion_index: *rng.pick(&[0usize, 2]),
+        bucket: 8192,
+        peps,
+        ftol,
+        ptol: Tol::Da(-6000.0, 6000.0),
+        mfc: *rng.pick(&[None, Some(1u8), Some(2)]),
+        iso,
+        openms: rng.chance(1, 8),
+        annotate: rng.chance(1, 3),
+        min_matched: *rng.pick(&[0u16, 0, 0, 3]),
+        prec_mz: tp.mono / z as f32 + PROTON,
+        z,
+        annotated,
+        override_z: false,
+        pc_range: (2, 3),
+        tic,
+        peaks,
+    };
+    let mut o = Out::new();
+    o.raw("scoremany").n(rp).n(2).n(0);
+    let line = req.line();
+    o.raw(&line["score1 ".len()..]);
+    (o.finish(), tags)
+}
+
+fn gen_chimera(rng: &mut Rng, tier: Tier, emit: &mut dyn FnMut(Case)) {
+    // directed: two full ladders (intensity 1+j each), one peptide only (round 2 reports it again with nothing matched)
+    for (seqs, rp) in [(&[&b"PEPTIDEK"[..], &b"LGEYGFQNALIVR"[..]][..], 2usize), (&[&b"PEPTIDEK"[..], &b"LGEYGFQNALIVR"[..]][..], 3), (&[&b"PEPTIDEK"[..]][..], 2)] {
+        let mut peps: Vec<Pep> = seqs.iter().map(|s| Pep::plain(s)).collect();
+        peps.sort_by(|a, b| a.mono.total_cmp(&b.mono));
+        let mut peaks = vec![];
+        for (i, p) in peps.iter().enumerate() {
+            let pt = p.peptide();
+            for k in [1usize, 4] {
+                for (j, ion) in IonSeries::new(&pt, KINDS[k]).enumerate() {
+                    peaks.push((ion.monoisotopic_mass, (1 + i * 10) as f32 + j as f32));
+                }
+            }
+        }
+        peaks.sort_by(|a: &(f32, f32), b| a.0.total_cmp(&b.0));
+        let mut r = full_ladder_case(seqs[0], &[1, 4], &|_, _| false, true);
+        r.tic = peaks.iter().map(|p| p.1).sum::<f32>();
+        r.peaks = peaks;
+        r.ptol = Tol::Da(-6000.0, 6000.0);
+        r.peps = peps;
+        let mut o = Out::new();
+        o.raw("scoremany").n(rp).n(2).n(0);
+        let line = r.line();
+        o.raw(&line["score1 ".len()..]);
+        emit(Case::new(o.finish()).tag("scoremany").tag("chimera").tag("directed"));
+    }
+    let n = if tier == Tier::Quick { 60 } else { 6000 };
+    for it in 0..n {
+        let (line, tags) = chimera_case(rng, it);
+        let mut c = Case::new(line);
+        for t in tags {
+            c = c.tag(t);
+        }
+        emit(c);
+    }
+}
+
 fn gen_many(rng: &mut Rng, tier: Tier, emit: &mut dyn FnMut(Case)) {
     // sizes just below / at / above trim_hits' 50 and 2 * report_psms (2, 10, 80)
     let sizes: &[usize] = if tier == Tier::Quick { &[49, 50, 51, 64, 79, 80, 81, 130] } else { &[9, 10, 11, 49, 50, 51, 52, 64, 79, 80, 81, 100, 130, 200, 300] };
@@ -829,6 +947,7 @@ fn gen_many(rng: &mut Rng, tier: Tier, emit: &mut dyn FnMut(Case)) {
 pub fn gen(rng: &mut Rng, tier: Tier, emit: &mut dyn FnMut(Case)) {
     gen_select(rng, tier, emit);
     gen_many(rng, tier, emit);
+    gen_chimera(rng, tier, emit);
 
     // ---- directed score1 cases ----
     // the repaired finding: PEPTIDEK with its complete b/y ladder (longest_b = longest_y = 7)
@@ -979,13 +1098,17 @@ pub fn exec(op: &str, t: &mut Toks) -> Option<String> {
             Some(o.finish())
         }
         "score1" | "scoremany" => {
-            let (report_psms, wide_window, isolation_window) = if op == "scoremany" {
+            let (report_psms, wide_window, chimera, isolation_window) = if op == "scoremany" {
                 let rp = t.usize()?;
-                let w = t.bool()?;
+                // mode: bit 0 = wide_window, bit 1 = chimera
+                let mode = t.usize()?;
+                if mode > 3 {
+                    return None;
+                }
                 let iw = t.opt(Tol::read)?;
-                (rp, w, iw)
+                (rp, mode & 1 == 1, mode & 2 == 2, iw)
             } else {
-                (1000, false, None)
+                (1000, false, false, None)
             };
             let kinds = t.list(|t| t.usize())?;
             let min_ion_index = t.usize()?;
@@ -1047,7 +1170,7 @@ pub fn exec(op: &str, t: &mut Toks) -> Option<String> {
                 max_precursor_charge: max_pc,
                 override_precursor_charge: override_z,
                 max_fragment_charge: mfc,
-                chimera: false,
+                chimera,
                 report_psms,
                 wide_window,
                 annotate_matches: annotate,
